@@ -431,6 +431,49 @@ theorem delivered265_witness : ¬ delivered265_full run265 := by
   revert this
   decide
 
+/-! #### sub-stream switch -/
+
+theorem kinds264 (s p : NALU) (hs : isSPS264 s = true) (hp : isPPS264 p = true) :
+    isSPS264 p = false ∧ isPPS264 s = false ∧ isIDR264 s = false ∧ isIDR264 p = false ∧
+    drop264 s = true ∧ drop264 p = true ∧ s.isEmpty = false ∧ p.isEmpty = false := by
+  simp only [isSPS264, isPPS264, Bool.and_eq_true, Bool.not_eq_true', beq_iff_eq] at hs hp
+  simp [isSPS264, isPPS264, isIDR264, drop264, isAUD264, hs.1, hs.2, hp.1, hp.2]
+
+/-- **sub-stream switch, H264**: when a sub stream whose description carries an SPS and a PPS takes over, the
+parameters of the output format (= injected at the following key frames, = reported by the description)
+become exactly those, whatever was there before (a previous publisher's, the offline clip's …); the
+transfer unit itself delivers nothing. -/
+theorem switch264_params (st : P264) (s p : NALU) (hs : isSPS264 s = true) (hp : isPPS264 p = true) :
+    switch264 st ⟨some s, some p⟩ = (⟨some s, some p⟩, .ok []) := by
+  obtain ⟨h1, h2, h3, h4, h5, h6, h7, h8⟩ := kinds264 s p hs hp
+  have hne : (!hasEmpty [s, p]) = true := by simp [hasEmpty, h7, h8]
+  simp only [switch264, subAU264]
+  rw [step264_eq st [s, p] hne]
+  simp [latest264, latest, expected264, expected, hs, hp, h1, h3, h4, h5, h6]
+
+/-- without a complete set in the description nothing is transferred (the previous parameters stay until
+in-band ones arrive) -/
+theorem switch264_incomplete (st d : P264) (h : d.sps = none ∨ d.pps = none) : switch264 st d = (st, .ok []) := by
+  rcases h with h | h <;> simp [switch264, subAU264, h]
+
+theorem kinds265 (v s p : NALU) (hv : isVPS265 v = true) (hs : isSPS265 s = true) (hp : isPPS265 p = true) :
+    isVPS265 s = false ∧ isVPS265 p = false ∧ isSPS265 v = false ∧ isSPS265 p = false ∧
+    isPPS265 v = false ∧ isPPS265 s = false ∧ isKey265 v = false ∧ isKey265 s = false ∧ isKey265 p = false ∧
+    drop265 v = true ∧ drop265 s = true ∧ drop265 p = true ∧
+    v.isEmpty = false ∧ s.isEmpty = false ∧ p.isEmpty = false := by
+  simp only [isVPS265, isSPS265, isPPS265, Bool.and_eq_true, Bool.not_eq_true', beq_iff_eq] at hv hs hp
+  simp [isVPS265, isSPS265, isPPS265, isKey265, drop265, isAUD265, hv.1, hv.2, hs.1, hs.2, hp.1, hp.2]
+
+/-- **sub-stream switch, H265** (updater comparing with the running value, as on HEAD after the F-C22 fix) -/
+theorem switch265Fixed_params (st : P265) (v s p : NALU) (hv : isVPS265 v = true) (hs : isSPS265 s = true)
+    (hp : isPPS265 p = true) :
+    switch265Fixed st ⟨some v, some s, some p⟩ = (⟨some v, some s, some p⟩, .ok []) := by
+  obtain ⟨h1, h2, h3, h4, h5, h6, h7, h8, h9, h10, h11, h12, h13, h14, h15⟩ := kinds265 v s p hv hs hp
+  have hne : (!hasEmpty [v, s, p]) = true := by simp [hasEmpty, h13, h14, h15]
+  simp only [switch265Fixed, subAU265]
+  rw [step265Fixed_eq st [v, s, p] hne]
+  simp [latest265, latest, expected265, expected, hv, hs, hp, h1, h2, h4, h7, h8, h9, h10, h11, h12]
+
 /-! #### MPEG-4 Video -/
 
 theorem indexOf_prefix (pat : Bytes) (s : Bytes) (e : Nat) (h : indexOf pat s = some e) :
@@ -594,6 +637,9 @@ example : noStaleRun wP0 [[[0x40, 1]], [[0x40, 2]]] = true := by decide
 example : stale265 wP0 wAU = true := by decide
 example : (step265 wP0 wAU).1.vps = some [0x40, 1] := by decide
 example : (step265Fixed wP0 wAU).1.vps = some [0x40, 2] := by decide
+-- publisher parameters are replaced by the offline clip's when the stream goes offline again
+example : (switch264 ⟨some [0x67, 9], some [0x68, 9]⟩ ⟨some [0x67, 1], some [0x68, 1]⟩).1 =
+    ⟨some [0x67, 1], some [0x68, 1]⟩ := by decide
 example : remuxAV1 [[0x12, 0], [0x0A, 1], [0x32, 2]] = .ok [[0x0A, 1], [0x32, 2]] := by decide
 example : stepM4V [9] [0, 0, 1, 0xB0, 7, 0, 0, 1, 0xB3, 5] = ([0, 0, 1, 0xB0, 7], [0, 0, 1, 0xB0, 7, 0, 0, 1, 0xB3, 5]) := by
   decide
